@@ -397,7 +397,8 @@ Section HandleCalls.
 
   Lemma f_write_at_clean b off : clean_but None (snd (f_write_at s v f b off)).
   Proof.
-    unfold f_write_at. destruct (Z.ltb off 0); [cl1|]. destruct b; [cl1|]. destruct (hd_name f); [cl1|]. destruct (hd_node f); [|cl1].
+    unfold f_write_at. destruct (has (hd_mode f) OpenAppend); [cl1|].
+    destruct (Z.ltb off 0); [cl1|]. destruct b; [cl1|]. destruct (hd_name f); [cl1|]. destruct (hd_node f); [|cl1].
     destruct (file_of s _) as [[[[d k] i] m]|]; [|cl1]. destruct (negb _); cl1.
   Qed.
 
